@@ -95,10 +95,15 @@ def get_facts(config='default', repo=REPO, quiet=True):
             raise SystemExit('extraction failed: the driver wrote no fact file (wrapper skipped?)')
         os.rename(out + '.new', out)
         # keep the cache small: drop fact files other than the 30 newest
-        fs = sorted(glob.glob(os.path.join(CACHE, 'facts', '*.json')), key=os.path.getmtime)
+        def _mt(x):
+            try:
+                return os.path.getmtime(x)
+            except OSError:
+                return 0
+        fs = sorted(glob.glob(os.path.join(CACHE, 'facts', '*.json')), key=_mt)
         for f in fs[:-60]:
             try:
-                if time.time() - os.path.getmtime(f) < 3600:
+                if time.time() - _mt(f) < 3600:
                     continue      # may be in use by a concurrent run
                 os.remove(f)
             except OSError:
